@@ -16,6 +16,7 @@
 #include <cstring>
 #include <new>
 #include <sys/mman.h>
+#include "arena_flag.h"
 
 namespace vf
 {
@@ -26,7 +27,6 @@ namespace vf
     static inline char *base = nullptr;
     static inline size_t off = 0;
     static inline size_t high = 0;
-    static inline int on = 0;
     static inline size_t salt = 0; // VERIF_SEED-derived start offset (multiple of 64)
 
     static void init()
@@ -74,22 +74,22 @@ namespace vf
       {
         init();
         reset();
-        on = 1;
+        arena_on = 1;
       }
-      ~Scope() { on = 0; }
+      ~Scope() { arena_on = 0; }
     };
     struct Pause
     {
       int was;
-      Pause() : was(on) { on = 0; }
-      ~Pause() { on = was; }
+      Pause() : was(arena_on) { arena_on = 0; }
+      ~Pause() { arena_on = was; }
     };
   };
 } // namespace vf
 
 void *operator new(size_t n)
 {
-  if (vf::Arena::on)
+  if (vf::arena_on)
     return vf::Arena::alloc(n);
   void *p = std::malloc(n ? n : 1);
   if (!p)
